@@ -175,6 +175,80 @@ Definition delay_for_attempt (p : reconnect_policy) (attempt : N) (draw : f64)
   end.
 
 (* ------------------------------------------------------------------------- *)
+(* The loop counters of the two layers that call these functions against a failing backend.
+   One loop step = what the layer does after one more failed inner call (retryable / reconnectable
+   error, no retry budget): LSleep d a' = sleep for d ns and call again with the counter at a',
+   LStop = give the error back to the caller, LPanic = the step panics.
+
+   Retry (tower-resilience-retry/src/lib.rs, the `Err(error)` arm of the loop in `call`):
+     let mut attempt = 0;                                   // usize
+     ... if attempt + 1 >= max_attempts { return Err(error) }
+         let delay = config.policy.next_backoff(attempt);
+         tokio::time::sleep(delay).await;  attempt += 1;
+   `attempt + 1` is a usize addition: with overflow checks (the harness profile, and every debug
+   build) it panics on overflow; usize_succ models the checked form.
+
+   Reconnect (tower-resilience-reconnect/src/service.rs, ReconnectFuture::poll, Phase::Calling,
+   reconnectable error; `attempt: u32` starts at 0 for every request):
+     *this.attempt = this.attempt.saturating_add(1);        // since /repo 0c0148b; was `+= 1`
+     if let Some(max) = max_attempts { if *this.attempt > max { return MaxAttemptsExceeded } }
+     match policy.delay_for_attempt( *this.attempt as usize ) {
+       Some(delay) => Phase::Sleeping(tokio::time::sleep(delay)), None => return ConnectionFailed }
+   `u32 as usize` is lossless (usize has at least 32 bits on every tokio target).
+   tokio::time::sleep(d) itself accepts every Duration (Instant::now().checked_add(d), else
+   a far-future deadline): not modelled. *)
+Definition USIZE_MAX : N := 18446744073709551615%N.
+Definition U32_MAX : N := 4294967295%N.
+Definition usize_succ (a : N) : option N := if (a <? USIZE_MAX)%N then Some (a + 1)%N else None.
+Definition u32_sat_succ (a : N) : N := N.min (a + 1) U32_MAX.
+
+Inductive loop_step :=
+| LSleep (d : Z) (next : N)
+| LStop
+| LPanic.
+
+Definition retry_step (b : backoff) (max_attempts attempt : N) (draw : f64) : loop_step :=
+  match usize_succ attempt with
+  | None => LPanic
+  | Some a1 =>
+      if (max_attempts <=? a1)%N then LStop
+      else match next_backoff b attempt draw with
+           | None => LPanic
+           | Some d => LSleep d a1
+           end
+  end.
+
+Definition reconnect_step (p : reconnect_policy) (max_attempts : option N) (attempt : N) (draw : f64)
+  : loop_step :=
+  let a1 := u32_sat_succ attempt in
+  if match max_attempts with Some m => (m <? a1)%N | None => false end then LStop
+  else match delay_for_attempt p a1 draw with
+       | None => LPanic
+       | Some None => LStop
+       | Some (Some d) => LSleep d a1
+       end.
+
+(* the i-th step of a loop takes the i-th draw of the request's jitter stream *)
+Definition retry_stepf (b : backoff) (max_attempts : N) (draws : nat -> f64) (i : nat) (attempt : N)
+  : loop_step := retry_step b max_attempts attempt (draws i).
+Definition reconnect_stepf (p : reconnect_policy) (max_attempts : option N) (draws : nat -> f64)
+  (i : nat) (attempt : N) : loop_step := reconnect_step p max_attempts attempt (draws i).
+Definition no_jitter (_ : nat) : f64 := fzero.
+
+(* at most `fuel` steps of a loop whose i-th step is `stepf i counter`: the delays slept, and
+   whether the loop panicked *)
+Fixpoint loop_delays (stepf : nat -> N -> loop_step) (fuel i : nat) (attempt : N) : list Z * bool :=
+  match fuel with
+  | O => ([], false)
+  | S k =>
+      match stepf i attempt with
+      | LSleep d a' => let (l, p) := loop_delays stepf k (S i) a' in (d :: l, p)
+      | LStop => ([], false)
+      | LPanic => ([], true)
+      end
+  end.
+
+(* ------------------------------------------------------------------------- *)
 (* End-to-end loops against an inner service that always fails.
    The harness advances the paused clock in steps of `step` ns; a sleep of `d` ns started at
    instant t (a multiple of step) has fired at the first multiple of step that is >= t + d
@@ -183,13 +257,14 @@ Definition delay_for_attempt (p : reconnect_policy) (attempt : N) (draw : f64)
    first one (which happens at 0). *)
 Definition MS : Z := 1000000.
 Definition ceil_to (x g : Z) : Z := ((x + g - 1) / g) * g.
-Fixpoint loop_instants (delay : N -> Z) (step : Z) (first : N) (n : nat) (t : Z) : list Z :=
-  match n with
-  | O => []
-  | S k =>
-      let t' := ceil_to (t + delay first) step in
-      t' :: loop_instants delay step (N.succ first) k t'
+Fixpoint instants (step t : Z) (ds : list Z) : list Z :=
+  match ds with
+  | [] => []
+  | d :: r => let t' := ceil_to (t + d) step in t' :: instants step t' r
   end.
+Definition emit_loop (step : Z) (r : list Z * bool) : list Z :=
+  let (ds, panicked) := r in
+  (if panicked then 1 else 0) :: Z.of_nat (S (length ds)) :: map (fun t => t / MS) (instants step 0 ds).
 
 (* ------------------------------------------------------------------------- *)
 (* script = [kind; initial_ns; multiplier_bits; has_cap; cap_ns; factor_bits; n; attempt x n; oracle x n]
@@ -201,9 +276,13 @@ Fixpoint loop_instants (delay : N -> Z) (step : Z) (first : N) (n : nat) (t : Z)
      kind 5 ReconnectPolicy::fixed, 6 ReconnectPolicy::none (ns = -1: no delay)
      kind 7 FnInterval (closure |a| initial + a mod 1000 ns) via RetryPolicy::next_backoff and
             ReconnectPolicy::Custom                     -> per attempt [panicked; ns; panicked; ns]
-     kind 8 reconnect loop end-to-end: n = 2, attempts slot = [retries; step_ms]
+     kind 8 reconnect loop end-to-end: attempts slot = [retries; step_ms; max; route] (n = 2: max =
+            route = 0): max = 0 unlimited_attempts, max > 0 max_attempts(max - 1); route 0
+            ReconnectPolicy::exponential(initial, cap), route 1 the builder's default policy
                                                         -> [panicked; n calls; instants(ms)*]
-     kind 9 retry loop end-to-end (ExponentialBackoff): same
+     kind 9 retry loop end-to-end: same slot; max = 0 max_attempts(retries + 1), max > 0
+            max_attempts(max); route 0 .backoff(ExponentialBackoff), route 1
+            .exponential_backoff(initial), route 2 the builder's default backoff
    Jittered kinds: the thread-local RNG cannot be seeded, so the oracle slot carries the value the
    implementation returned (gen/c14.py model_input); the model answers with that value when it
    lies between the results for the two extreme draws (a necessary condition for the existence of
@@ -258,15 +337,21 @@ Definition run_script (s : list Z) : list Z :=
   else if kind =? 8 then
     let k := Z.to_nat (zn s 7%nat) in
     let step := zn s 8%nat * MS in
-    (* ReconnectFuture: attempt counter starts at 1 *)
-    let delay a := match delay_for_attempt (policy_exponential ini (zn s 4)) a fzero with
-                   | Some (Some d) => d | _ => 0 end in
-    0 :: Z.of_nat (S k) :: map (fun t => t / MS) (loop_instants delay step 1%N k 0)
+    let mx := zn s 9%nat in
+    let max_attempts := if mx =? 0 then None else Some (Z.to_N (mx - 1)) in
+    let pol := if zn s 10%nat =? 1 then policy_exponential (100 * MS) (5 * NANOS)
+               else policy_exponential ini (zn s 4) in
+    (* ReconnectFuture: the counter starts at 0 and is incremented before the policy is asked *)
+    emit_loop step (loop_delays (reconnect_stepf pol max_attempts no_jitter) k 0 0%N)
   else if kind =? 9 then
     let k := Z.to_nat (zn s 7%nat) in
     let step := zn s 8%nat * MS in
-    (* Retry: attempt counter starts at 0 *)
-    let delay a := match next_backoff (exponential_backoff ini m cap) a fzero with
-                   | Some d => d | None => 0 end in
-    0 :: Z.of_nat (S k) :: map (fun t => t / MS) (loop_instants delay step 0%N k 0)
+    let mx := zn s 9%nat in
+    let max_attempts := if mx =? 0 then N.of_nat (S k) else Z.to_N mx in
+    let route := zn s 10%nat in
+    let b := if route =? 1 then exponential_backoff ini ftwo None
+             else if route =? 2 then exponential_backoff (100 * MS) ftwo None
+             else exponential_backoff ini m cap in
+    (* Retry: the counter starts at 0 and is incremented after the sleep *)
+    emit_loop step (loop_delays (retry_stepf b max_attempts no_jitter) k 0 0%N)
   else [].
